@@ -37,11 +37,19 @@ def make_scratch(name):
 def apply_edits(d, edits):
     for (rel, old, new, *rest) in edits:
         count = rest[0] if rest else 1
+        which = rest[1] if len(rest) > 1 else None  # replace only this occurrence (0-based)
         p = os.path.join(d, rel)
         s = open(p).read()
         if s.count(old) != count:
             return f"pattern occurs {s.count(old)} times (expected {count}) in {rel}: {old[:60]!r}"
-        open(p, "w").write(s.replace(old, new))
+        if which is None:
+            s = s.replace(old, new)
+        else:
+            pos = -1
+            for _ in range(which + 1):
+                pos = s.find(old, pos + 1)
+            s = s[:pos] + new + s[pos + len(old):]
+        open(p, "w").write(s)
     return None
 
 
